@@ -131,3 +131,121 @@ func init() {
 		}
 	}))
 }
+
+// MultiRunner runs several BFS configurations of one property and aggregates them.
+type MultiCase struct {
+	Name string
+	Spec Spec
+	Cfg  engine.Config
+}
+
+func MultiRunner(mk func(tier string) ([]MultiCase, []string)) func(tier string) *Runner {
+	return func(tier string) *Runner {
+		return &Runner{
+			Run: func(o RunOpts) Output {
+				cases, assumptions := mk(o.Tier)
+				agg := Output{Known: map[string]*KnownOut{}}
+				tot := map[string]interface{}{}
+				var per []map[string]interface{}
+				states, trans, replays, exhaustive := 0, 0, 0, true
+				counters := map[string]int{}
+				var samples [][]string
+				deadlineAll := time.Now()
+				_ = deadlineAll
+				for _, c := range cases {
+					cfg := c.Cfg
+					cfg.Known = o.Known
+					if o.Workers > 0 {
+						cfg.Workers = o.Workers
+					}
+					res := engine.Run(Adapter{Spec: c.Spec}, cfg)
+					one := BFSOutput(res, cfg, nil)
+					states += res.States
+					trans += res.Transitions
+					replays += res.Replays
+					exhaustive = exhaustive && res.Exhaustive && res.InternalError == ""
+					for k, v := range res.Counters {
+						counters[k] += v
+					}
+					for k, v := range one.Known {
+						if agg.Known[k] == nil {
+							agg.Known[k] = &KnownOut{Example: "[" + c.Name + "] " + v.Example}
+						}
+						agg.Known[k].Count += v.Count
+					}
+					if len(res.Samples) > 0 && len(samples) < 4 {
+						samples = append(samples, append([]string{"[" + c.Name + "]"}, res.Samples[0]...))
+					}
+					per = append(per, map[string]interface{}{"case": c.Name, "states": res.States, "transitions": res.Transitions, "max_depth": res.MaxDepth,
+						"depth_bound": cfg.MaxDepth, "exhaustive": res.Exhaustive, "cap_hit": res.CapHit, "counters": res.Counters, "distinct_outcomes": res.DistinctObs})
+					if res.InternalError != "" && agg.InternalError == "" {
+						agg.InternalError = "[" + c.Name + "] " + res.InternalError
+					}
+					if len(res.Violations) > 0 {
+						for _, v := range res.Violations {
+							v.Violation.Detail = "[" + c.Name + "] " + v.Violation.Detail
+							agg.Violations = append(agg.Violations, v)
+						}
+						break
+					}
+				}
+				tot["states"] = states
+				tot["transitions"] = trans
+				tot["traces_validated_against_impl"] = trans
+				tot["straightline_replays_from_genesis"] = replays
+				tot["exhaustive"] = exhaustive
+				tot["nonvacuity_counters"] = counters
+				tot["cases"] = per
+				if len(samples) == 0 {
+					samples = [][]string{{"<none>"}}
+				}
+				tot["samples"] = samples
+				tot["explanation"] = "one explicit-state BFS per configuration listed in cases; every transition is an execution of the real keepers"
+				agg.Evidence = map[string]interface{}{"level": "model_checking", "coverage": tot, "assumptions": assumptions}
+				agg.Summary = fmt.Sprintf("cases=%d states=%d transitions=%d exhaustive=%v counters=%v known=%d", len(per), states, trans, exhaustive, counters, len(agg.Known))
+				return agg
+			},
+			Replay: func(tier string, seed int, ops []engine.Op) []engine.Violation {
+				cases, _ := mk(tier)
+				var vs []engine.Violation
+				for _, c := range cases {
+					a := Adapter{Spec: c.Spec}
+					func() {
+						defer func() { recover() }()
+						_, steps := a.Replay(a.NewWorker(), seed, ops)
+						for _, s := range steps {
+							vs = append(vs, s.Violations...)
+						}
+					}()
+					if len(vs) > 0 {
+						break
+					}
+				}
+				return vs
+			},
+		}
+	}
+}
+
+var PowerVectors = [][]int64{{10, 10, 10}, {1, 1, 1}, {1, 1}, {34, 33, 33}, {50, 30, 20}, {50, 25, 25}, {66, 34}, {65, 35}, {2, 1, 1, 1}, {10}}
+
+func init() {
+	Register("C02", MultiRunner(func(tier string) ([]MultiCase, []string) {
+		var cases []MultiCase
+		depth, dl := 4, 12*time.Second
+		if tier == "thorough" {
+			depth, dl = 6, 3*time.Minute
+		}
+		for _, pv := range PowerVectors {
+			cases = append(cases, MultiCase{Name: fmt.Sprint("powers=", pv), Spec: NewC02(pv, 2, false), Cfg: engine.Config{MaxDepth: depth + 1, Deadline: dl, ReplayLeaf: 10}})
+		}
+		// powers changing between vote and tally, unbonding, an unbonded validator and its orchestrator voting
+		cases = append(cases, MultiCase{Name: "powers=[10 10 10 unbonded]+staking ops", Spec: NewC02([]int64{10, 10, 10, 0}, 1, true), Cfg: engine.Config{MaxDepth: depth, Deadline: 2 * dl, ReplayLeaf: 10}})
+		cases = append(cases, MultiCase{Name: "powers=[50 30 20]+staking ops", Spec: NewC02([]int64{50, 30, 20}, 1, true), Cfg: engine.Config{MaxDepth: depth, Deadline: 2 * dl, ReplayLeaf: 10}})
+		return cases, []string{
+			"deposit events only (effects are C03's matter), one chain, 2 event nonces x 2 conflicting variants; signer kinds: validator account, its orchestrator, a stranger account",
+			"staking is a scripted table; SetPower/Unbond/Rebond may happen between any two transactions (over-approximates x/staking, whose changes land at its EndBlocker, which runs before mhub2's)",
+			"oracle is evaluated with exact integers: 100*sum(power of distinct bonded voters at tally) >= 66*total",
+		}
+	}))
+}
